@@ -9,6 +9,7 @@ mod c11;
 mod c12;
 mod c13;
 mod c14;
+mod c15;
 mod c17;
 mod common;
 mod refmodel;
@@ -109,6 +110,7 @@ fn main() {
         "C12" => c12::run(&ctx),
         "C13" => c13::run(&ctx),
         "C14" => c14::run(&ctx),
+        "C15" => c15::run(&ctx),
         _ => usage(),
     };
     let code = finish(&ctx, &rep, t0.elapsed().as_secs_f64());
